@@ -270,6 +270,8 @@ class SetAlg:
         if h == "ite":
             c = self.cond(t[1])
             return f_or(f_and(c, self.member(e, t[2])), f_and(f_not(c), self.member(e, t[3])))
+        if h == "comp" and any(self._is_empty(self.strip(g[1])) for g in t[3]):
+            return False  # a comprehension over nothing
         if h == "comp" and t[1] in ("set", "list", "gen"):
             r = self._comp_member(e, t[2], t[3])
             if r is not None:
@@ -352,6 +354,17 @@ class SetAlg:
 
     def _distribute(self, payload: Term, gens: tuple) -> list[Term]:
         out = []
+        payload = self.strip(payload)
+        if payload[0] in ("setlit", "listlit", "tuplelit") and len(payload[1]) == 1 and gens:
+            # {f(a if c else b) for x in S} = {f(a) for x in S if c} ∪ {f(b) for x in S if not c}
+            from .symeval import _first_ite
+            it = _first_ite(payload[1][0])
+            if it is not None and it[0] == "ite":
+                lp, li, lc = gens[-1]
+                yes = gens[:-1] + ((lp, li, tuple(lc) + (it[1],)),)
+                no = gens[:-1] + ((lp, li, tuple(lc) + (("not", it[1]),)),)
+                return (self._distribute((payload[0], (subst(payload[1][0], {it: it[2]}),)), yes)
+                        + self._distribute((payload[0], (subst(payload[1][0], {it: it[3]}),)), no))
         for p in self.union_parts(payload):
             if p[0] == "bigunion" and p[1][0] == "comp":
                 out.append(("bigunion", ("comp", "set", p[1][2], gens + tuple(p[1][3]))))
@@ -519,6 +532,13 @@ class SetAlg:
             # ∃x (A ∨ B) = ∃x A ∨ ∃x B ;  ∀x (A ∧ B) = ∀x A ∧ ∀x B
             parts = [self.cond((h, ("comp", c[1][1], b, c[1][3]))) for b in c[1][2][1:]]
             return f_or(*parts) if h == "any" else f_and(*parts)
+        if h == "any" and c[1][0] == "comp" and c[1][2][0] == "eq" and all(g[0][0] == "var" for g in c[1][3]):
+            # ∃x∈S: e == f(x)   <=>   e ∈ {f(x) for x in S}
+            bvs = [g[0] for g in c[1][3]]
+            a_, b_ = c[1][2][1], c[1][2][2]
+            for e_, f_ in ((a_, b_), (b_, a_)):
+                if not any(_mentions_var(e_, v) for v in bvs) and any(_mentions_var(f_, v) for v in bvs):
+                    return self.member(e_, ("comp", "set", f_, c[1][3]))
         if h in ("any", "all") and c[1][0] == "comp" and len(c[1][3]) >= 2:
             r = self._miniscope(h, c[1])
             if r is not None:
@@ -679,10 +699,15 @@ class SetAlg:
         """Canonical form of a term whose head is not decomposed as a set expression."""
         t = self.rewrite(t)
         h = t[0]
+        if h == "meth" and t[2] == "keys" and not t[3] and not t[4]:
+            return self.canon(t[1])  # d.keys(), as a collection, is d
         if h == "accum":
             c = accum_as_comp(t)
             if c is not None:
                 return self.canon_opaque(c)
+            t2 = _discard_form(t)
+            if t2 != t:
+                return self.canon_opaque(t2)
         if (h == "accum" and t[1] in ("union", "concat")) or h == "bigunion":
             return self.canon_set(t)
         if h == "call" and isinstance(t[1], str) and (t[1] in CHAIN_NAMES or t[1].endswith("chain.from_iterable")) and len(t[2]) == 1:
@@ -733,6 +758,26 @@ class SetAlg:
         return ("COND", formula_key(f))
 
 
+def _discard_form(t: Term) -> Term:
+    """`if x in d[k]: d[k].remove(x)`  is  `d[k].discard(x)`: removal of an element is written as discard, and the test that the element is
+    present (which only guards a no-op) is dropped."""
+    if len(t) < 6 or t[1] != "effect" or t[3][0] != "deep" or t[3][2] not in ("remove", "discard") or len(t[3][3]) != 1:
+        return t
+    path, x = t[3][1], t[3][3][0]
+    key = path[0][1] if len(path) == 1 and path[0][0] == "item" else None
+    gens = []
+    for pat, it, conds in t[4]:
+        cs = []
+        for c in conds:
+            parts = list(c[1:]) if c[0] == "and" else [c]
+            kept = [q for q in parts if not (q[0] == "in" and q[1] == x and q[2][0] == "index" and key is not None and q[2][2] == key)]
+            if not kept:
+                continue
+            cs.append(kept[0] if len(kept) == 1 else ("and",) + tuple(kept))
+        gens.append((pat, it, tuple(cs)))
+    return ("accum", "effect", t[2], ("deep", path, "discard", t[3][3]), tuple(gens), t[5])
+
+
 def accum_as_comp(t: Term) -> Term | None:
     """One update per iteration of an empty list / dict is the comprehension with the same generators (exact: order and overwriting of
     equal keys are those of the loop)."""
@@ -755,7 +800,30 @@ def formula_key(f: Formula) -> Any:
     atoms = sorted(atoms_of(f), key=akey)
     if len(atoms) > 12:
         return ("FORMULA", repr(f))
-    return (tuple(atoms), table(f, atoms))
+    tb = table(f, atoms)
+    # drop the atoms the table does not depend on (a guard computed as "none of the earlier cases" mentions every earlier atom)
+    n = len(atoms)
+    keep = []
+    for i in range(n):
+        stride = 1 << (n - 1 - i)
+        dep = any(tb[j] != tb[j + stride] for j in range(len(tb)) if not (j // stride) % 2)
+        if dep:
+            keep.append(i)
+    if len(keep) < n:
+        atoms2 = [atoms[i] for i in keep]
+        # the dropped atoms do not matter: fix them to False
+        return (tuple(atoms2), _restrict(f, atoms, keep))
+    return (tuple(atoms), tb)
+
+
+def _restrict(f: Formula, atoms: list, keep: list) -> tuple:
+    kept = [atoms[i] for i in keep]
+    out = []
+    for bits in itertools.product([False, True], repeat=len(kept)):
+        env = {a: False for a in atoms}
+        env.update(dict(zip(kept, bits)))
+        out.append(evalf(f, env))
+    return tuple(out)
 
 
 def _unify(pattern: Any, target: Any, pvars: set, acc: dict | None = None) -> dict | None:
